@@ -232,6 +232,7 @@ def judgeState (s : Q Float) (cur : Nat → Aabb3 Float) (live : List Nat) (afte
   else if !checkFree s.freeList then some "inv-free-list-duplicate"
   else if !checkFreeBound s then some "inv-free-list-out-of-range"
   else if sortNat (collect s (s.nodes.size + 1) 0) != sortNat live then some "reachable-leaves-differ-from-live-set"
+  else if !checkRootParent s then some "root-parent-not-invalid"
   else if !checkDirty s then some "dirty-flag-not-queued"
   else if !checkData s then some "proxy-data-differs-from-index"
   else if afterRefit then
